@@ -76,16 +76,19 @@ Proof. apply decl_wfb_sound. vm_compute. reflexivity. Qed.
    pair is conflicting, concurrent, overlapping and the theorem's conclusion is the lock clause;
    the repaired retainPath defect is rejected in its pre-fix shape and accepted after the fix *)
 Definition ex_w : asite :=
-  mk_asite ["Clients"; "internal"] "Clients.Add" true false [("Clients.RWMutex", W, true)] [RH].
+  mk_asite ["Clients"; "internal"] "Clients.Add" true false false [("Clients.RWMutex", W, true)] [RH].
 Definition ex_r : asite :=
-  mk_asite ["Clients"; "internal"] "Clients.GetAll" false false [("Clients.RWMutex", R, true)] [RE].
+  mk_asite ["Clients"; "internal"] "Clients.GetAll" false false false [("Clients.RWMutex", R, true)] [RE].
 
 Example C33_nonvacuous :
   sites_respect decl [ex_w; ex_r] = true /\
   overlap ex_w ex_r = true /\ conflicting ex_w ex_r = true /\ may_be_concurrent ex_w ex_r = true /\
-  sites_respect decl [ex_w; mk_asite ["Clients"; "internal"] "Clients.GetAll" false false [] [RE]] = false /\
+  sites_respect decl [ex_w; mk_asite ["Clients"; "internal"] "Clients.GetAll" false false false [] [RE]] = false /\
   sites_respect decl [rp_write; rp_read_prefix; rp_read_trim] = false /\
-  sites_respect decl [rp_write; rp_read_fixed; rp_read_trim] = true.
+  sites_respect decl [rp_write; rp_read_fixed; rp_read_trim] = true /\
+  (* the session expiry interval may be read by the event loop only behind the StopTime() guard *)
+  sites_respect decl [sei_write; sei_read_guarded] = true /\
+  sites_respect_modulo decl [sei_write; sei_read_unguarded] = false.
 Proof. vm_compute. repeat split. Qed.
 
 Print Assumptions C33_discipline_sound.
